@@ -22,7 +22,7 @@ func init() {
 			"(4) the replication entry encoding: SerializeWALEntry and DeserializeWALEntry agree field by field (offset, width, byte order, type guard) and the decoder stores every decoded field into the entry field the encoder took it from; " +
 			"(5) a stream response claims Compressed only for payloads that went through Compress; Compress and Decompress handle the same codecs with inverse library calls; (6) EngineApplier writes through the *Internal entry points when the engine is read-only and, per entry type (P-ORD walk), performs the operation the primary performed with the entry's own key and value.",
 		NotDecided: "all delivery schedules (reordering, duplication, overlap of push and poll, reconnects); equality of replica state with a primary prefix; the primary's choice of what to send.",
-		Rules:      []func(*Ctx, *Reporter){ruleReplCursor, ruleReplCursorWriters, ruleReplReported, ruleReplEntryCodec, ruleReplCompressionFlag, ruleReplApplyBypass, ruleReplCompressionSiblings, ruleReplApplierWiring},
+		Rules:      []func(*Ctx, *Reporter){ruleReplCursor, ruleReplCursorWriters, ruleReplReported, ruleReplEntryCodec, ruleReplCompressionFlag, ruleReplApplyBypass, ruleReplCompressionSiblings, ruleReplApplierWiring, ruleApplierAlwaysApplies},
 	})
 }
 
@@ -517,6 +517,50 @@ func ruleReplEntryCodec(c *Ctx, r *Reporter) {
 			diffs = append(diffs, "unrecognised shift idiom at "+c.InsPos(f.Ins))
 		}
 	}
+	// a value narrowed below the width of its field is written truncated (length prefixes wrap)
+	for i, f := range ef {
+		w := 0
+		fmt.Sscanf(f.Width, "%d", &w)
+		if f.val == nil || w == 0 {
+			continue
+		}
+		if bits := minConvBits(f.val, 0); bits < 8*w {
+			diffs = append(diffs, fmt.Sprintf("field %d: the value is narrowed to %d bits before it is written into a %d-byte field (lengths of %d or more wrap)", i, bits, w, 1<<uint(bits)))
+		}
+	}
+	// the decoder's minimum-length precondition must not exceed the smallest payload the encoder produces
+	minEnc := int64(-1)
+	if mk, ok := payload.(*ssa.MakeSlice); ok {
+		var lx LinX
+		for _, alt := range lx.Lin(mk.Len) {
+			if minEnc < 0 || alt.L.K < minEnc {
+				minEnc = alt.L.K
+			}
+		}
+	}
+	for _, b := range dec.Blocks {
+		if len(b.Instrs) == 0 {
+			continue
+		}
+		iff, ok := b.Instrs[len(b.Instrs)-1].(*ssa.If)
+		if !ok {
+			continue
+		}
+		bo, ok := iff.Cond.(*ssa.BinOp)
+		if !ok || bo.Op != token.LSS {
+			continue
+		}
+		call, ok := bo.X.(*ssa.Call)
+		if !ok {
+			continue
+		}
+		if bi, isB := call.Call.Value.(*ssa.Builtin); !isB || bi.Name() != "len" || !isParamNamed(dec, "payload")(call.Call.Args[0]) {
+			continue
+		}
+		if k, isK := constInt(bo.Y); isK && minEnc >= 0 && k > minEnc {
+			diffs = append(diffs, fmt.Sprintf("the decoder rejects payloads shorter than %d bytes, the encoder produces payloads from %d bytes (a delete of a short key)", k, minEnc))
+		}
+	}
 	r.Check(len(diffs) == 0 && len(ef) >= 6, "replication.entry-codec", c.FnPos(dec), fmt.Sprintf("%d fields agree: %s", len(ef), strings.Join(rendered, " ; ")),
 		"replication entry layout differs between SerializeWALEntry and DeserializeWALEntry: "+strings.Join(diffs, "; "))
 	if len(ef) != len(df) || len(ef) < 6 {
@@ -959,4 +1003,33 @@ func ruleReplApplierWiring(c *Ctx, r *Reporter) {
 
 func constantInt(k *types.Const) (int64, bool) {
 	return constant.Int64Val(constant.ToInt(k.Val()))
+}
+
+// minConvBits: the narrowest integer type a value passes through on its way (conversion chain), in bits.
+func minConvBits(v ssa.Value, d int) int {
+	bits := 64
+	for i := 0; i < 8 && v != nil; i++ {
+		cv, ok := v.(*ssa.Convert)
+		if !ok {
+			break
+		}
+		if b, ok := cv.Type().Underlying().(*types.Basic); ok {
+			switch b.Kind() {
+			case types.Uint8, types.Int8:
+				if bits > 8 {
+					bits = 8
+				}
+			case types.Uint16, types.Int16:
+				if bits > 16 {
+					bits = 16
+				}
+			case types.Uint32, types.Int32:
+				if bits > 32 {
+					bits = 32
+				}
+			}
+		}
+		v = cv.X
+	}
+	return bits
 }
